@@ -28,5 +28,7 @@ def run(ctx):
         small4.run_sds(ctx, found=bool(ctx.violations))
         from .. import adpcmenc       # IMA (WAV / W64 / AIFF layouts) and MS ADPCM encoders + write paths (lean/SfModel/AdpcmEnc.lean, AdpcmFile.lean)
         adpcmenc.run(ctx, "C07", 120 if q else 1200)
+        from .. import voxcamp        # OKI/VOX: the held sample of odd item counts (lean/SfModel/Oki.lean writeBlock / closeCarry / readBlock)
+        voxcamp.run(ctx, "C07", 120 if q else 1200)
         from .. import codecs20       # a table entry of the tree differs from the published one: look for an input that shows it
         codecs20.search(ctx)
